@@ -40,19 +40,4 @@ pub proof fn lemma_refund_nonneg(appts: Map<UUID, ApptRow>, list: Seq<UUID>, u: 
     if n > 0 { lemma_refund_nonneg(appts, list, u, n - 1); }
 }
 
-pub proof fn lemma_push_contains<K>(s: Seq<K>, k: K)
-    ensures forall|x: K| #[trigger] s.push(k).contains(x) <==> (x == k || s.contains(x)),
-{
-    assert forall|x: K| #[trigger] s.push(k).contains(x) <==> (x == k || s.contains(x)) by {
-        if s.push(k).contains(x) {
-            let i = choose|i: int| 0 <= i < s.push(k).len() && s.push(k)[i] == x;
-            if i < s.len() { assert(s[i] == x); }
-        }
-        if s.contains(x) {
-            let i = choose|i: int| 0 <= i < s.len() && s[i] == x;
-            assert(s.push(k)[i] == x);
-        }
-        assert(s.push(k)[s.len() as int] == k);
-    }
-}
 
